@@ -1878,3 +1878,63 @@ pub fn regenerate_id<'a>(id: &'a str, strategy: &'a IdStrategy) -> String {
         }
     }
 }
+
+#[cfg(stam_verif)]
+impl<HandleType> IdMap<HandleType>
+where
+    HandleType: Handle,
+{
+    /// Verification hook (read-only): the id map as (id, handle) tuples sorted by id.
+    pub fn verif_dump(&self) -> Vec<(String, usize)> {
+        let mut v: Vec<(String, usize)> = self
+            .data
+            .iter()
+            .map(|(k, h)| (k.clone(), h.as_usize()))
+            .collect();
+        v.sort();
+        v
+    }
+}
+
+#[cfg(stam_verif)]
+impl<A, B> RelationMap<A, B>
+where
+    A: Handle,
+    B: Handle,
+{
+    /// Verification hook (read-only): rows of the map, in stored order.
+    pub fn verif_dump(&self) -> Vec<Vec<usize>> {
+        self.data
+            .iter()
+            .map(|row| row.iter().map(|h| h.as_usize()).collect())
+            .collect()
+    }
+}
+
+#[cfg(stam_verif)]
+impl<A, B> RelationBTreeMap<A, B>
+where
+    A: Handle,
+    B: Handle,
+{
+    /// Verification hook (read-only): (key, row) tuples, rows in stored order.
+    pub fn verif_dump(&self) -> Vec<(usize, Vec<usize>)> {
+        self.data
+            .iter()
+            .map(|(k, row)| (k.as_usize(), row.iter().map(|h| h.as_usize()).collect()))
+            .collect()
+    }
+}
+
+#[cfg(stam_verif)]
+impl<A, B, C> TripleRelationMap<A, B, C>
+where
+    A: Handle,
+    B: Handle,
+    C: Handle,
+{
+    /// Verification hook (read-only): nested rows of the map, in stored order.
+    pub fn verif_dump(&self) -> Vec<Vec<Vec<usize>>> {
+        self.data.iter().map(|m| m.verif_dump()).collect()
+    }
+}
